@@ -93,11 +93,12 @@ def oracle(workload, adm, ref_ledger, ref_seen, final, pre_ledger, post_ledger, 
         h = str(c.get("handling", ""))
         if h.startswith("d:StartStage") and k is not None and 1 <= k <= max(1, n - 4):
             tag = "claim-plan-window"
-            # the same window while a stale CompleteTask for a task of this very stage is still queued
-            # (only reachable on jump loops under a reordering baseline): recovery then believes the task
-            # is already being driven and pushes nothing
+            # the same window while a message for a task of this very stage is still queued that will not drive
+            # it (the previous iteration's CompleteTask(REDIRECT); an already processed, un-acked StartTask left
+            # by an earlier crash): recovery believes the task is being driven and pushes nothing
             stage = h.split(":")[2] if h.count(":") >= 2 else ""
-            if any(q.startswith(f"CompleteTask:{stage}:") for q in c.get("queued_at_crash", ())):
+            if any(q.split(":")[0] in ("CompleteTask", "StartTask", "RunTask") and q.split(":")[1:2] == [stage]
+                   for q in c.get("queued_at_crash", ())):
                 tag = "claim-plan-window+stale-task-message"
     ref_status = ref_final_status or {}
     # a branch the uninterrupted run SKIPPED has executed: that effect has one known cause, whatever else crashed
